@@ -33,6 +33,10 @@ structure Reviewed where
   func : String
   target : String
   why : Why
+  /-- for `rebindImmutable`: the type guards (enclosing isinstance/type tests, with polarity) under which
+      the target was reviewed to be an immutable value; must equal the site's extracted guard, so that
+      widening a guard (accepting a new kind of value in the same branch) is not covered. -/
+  guard : String
   deriving Repr
 
 /-- Which store kinds a justification covers (a new *kind* of write into a reviewed target is not covered). -/
@@ -49,117 +53,117 @@ def Why.allows : Why → Kind → Bool
 
 def reviewedSites : List Reviewed := [
   -- printing: quote()/pretty() accumulators (lists of (indent, text))
-  ⟨"funsor/cnf.py", "_", "out", .printing⟩,
-  ⟨"funsor/sum_product.py", "_", "out", .printing⟩,
-  ⟨"funsor/tensor.py", "_", "out", .printing⟩,
-  ⟨"funsor/terms.py", "_", "out", .printing⟩,
-  ⟨"funsor/terms.py", "quote_inplace_oneline", "out", .printing⟩,
-  ⟨"funsor/terms.py", "quote_inplace_first_arg_on_first_line", "out", .printing⟩,
-  ⟨"funsor/util.py", "_", "out", .printing⟩,
-  ⟨"funsor/util.py", "_quote_inplace", "out", .printing⟩,
-  ⟨"funsor/util.py", "_quote_repr", "out", .printing⟩,
-  ⟨"funsor/util.py", "_quote", "out", .printing⟩,
-  ⟨"funsor/util.py", "quote", "line", .printing⟩,
-  ⟨"funsor/ops/program.py", "OpProgram.as_code.<locals>.let", "lines", .printing⟩,
+  ⟨"funsor/cnf.py", "_", "out", .printing, ""⟩,
+  ⟨"funsor/sum_product.py", "_", "out", .printing, ""⟩,
+  ⟨"funsor/tensor.py", "_", "out", .printing, ""⟩,
+  ⟨"funsor/terms.py", "_", "out", .printing, ""⟩,
+  ⟨"funsor/terms.py", "quote_inplace_oneline", "out", .printing, ""⟩,
+  ⟨"funsor/terms.py", "quote_inplace_first_arg_on_first_line", "out", .printing, ""⟩,
+  ⟨"funsor/util.py", "_", "out", .printing, ""⟩,
+  ⟨"funsor/util.py", "_quote_inplace", "out", .printing, ""⟩,
+  ⟨"funsor/util.py", "_quote_repr", "out", .printing, ""⟩,
+  ⟨"funsor/util.py", "_quote", "out", .printing, ""⟩,
+  ⟨"funsor/util.py", "quote", "line", .printing, ""⟩,
+  ⟨"funsor/ops/program.py", "OpProgram.as_code.<locals>.let", "lines", .printing, ""⟩,
   -- profiling counters
-  ⟨"funsor/instrument.py", "DebugLogged.__call__", "STACK_SIZE", .profiling⟩,
-  ⟨"funsor/instrument.py", "ProfileLogged.__call__", "COUNTERS['time']", .profiling⟩,
-  ⟨"funsor/instrument.py", "ProfileLogged.__call__", "COUNTERS['call']", .profiling⟩,
-  ⟨"funsor/instrument.py", "print_counters", "COUNTERS['time']", .profiling⟩,
-  ⟨"funsor/instrument.py", "print_counters", "counter", .profiling⟩,
-  ⟨"funsor/interpretations.py", "DispatchedInterpretation.__init__.<locals>.profiled_dispatch", "COUNTERS['time']", .profiling⟩,
-  ⟨"funsor/interpretations.py", "DispatchedInterpretation.__init__.<locals>.profiled_dispatch", "COUNTERS['call']", .profiling⟩,
-  ⟨"funsor/interpretations.py", "DispatchedInterpretation.__init__.<locals>.profiled_dispatch", "COUNTERS['interpretation']", .profiling⟩,
-  ⟨"funsor/interpretations.py", "StatefulInterpretationMeta.__init__.<locals>.profiled_dispatch", "COUNTERS['time']", .profiling⟩,
-  ⟨"funsor/interpretations.py", "StatefulInterpretationMeta.__init__.<locals>.profiled_dispatch", "COUNTERS['call']", .profiling⟩,
-  ⟨"funsor/interpretations.py", "StatefulInterpretationMeta.__init__.<locals>.profiled_dispatch", "COUNTERS['interpretation']", .profiling⟩,
-  ⟨"funsor/interpreter.py", "interpret", "instrument.STACK_SIZE", .profiling⟩,
-  ⟨"funsor/terms.py", "SubstituteInterpretation.interpret", "instrument.COUNTERS['interpretation']", .profiling⟩,
-  ⟨"funsor/terms.py", "reflect", "instrument.COUNTERS['ast_size']", .profiling⟩,
-  ⟨"funsor/terms.py", "reflect", "instrument.COUNTERS['ast_depth']", .profiling⟩,
-  ⟨"funsor/terms.py", "reflect", "instrument.COUNTERS['funsor']", .profiling⟩,
-  ⟨"funsor/terms.py", "reflect", "instrument.COUNTERS[classname]", .profiling⟩,
+  ⟨"funsor/instrument.py", "DebugLogged.__call__", "STACK_SIZE", .profiling, ""⟩,
+  ⟨"funsor/instrument.py", "ProfileLogged.__call__", "COUNTERS['time']", .profiling, ""⟩,
+  ⟨"funsor/instrument.py", "ProfileLogged.__call__", "COUNTERS['call']", .profiling, ""⟩,
+  ⟨"funsor/instrument.py", "print_counters", "COUNTERS['time']", .profiling, ""⟩,
+  ⟨"funsor/instrument.py", "print_counters", "counter", .profiling, ""⟩,
+  ⟨"funsor/interpretations.py", "DispatchedInterpretation.__init__.<locals>.profiled_dispatch", "COUNTERS['time']", .profiling, ""⟩,
+  ⟨"funsor/interpretations.py", "DispatchedInterpretation.__init__.<locals>.profiled_dispatch", "COUNTERS['call']", .profiling, ""⟩,
+  ⟨"funsor/interpretations.py", "DispatchedInterpretation.__init__.<locals>.profiled_dispatch", "COUNTERS['interpretation']", .profiling, ""⟩,
+  ⟨"funsor/interpretations.py", "StatefulInterpretationMeta.__init__.<locals>.profiled_dispatch", "COUNTERS['time']", .profiling, ""⟩,
+  ⟨"funsor/interpretations.py", "StatefulInterpretationMeta.__init__.<locals>.profiled_dispatch", "COUNTERS['call']", .profiling, ""⟩,
+  ⟨"funsor/interpretations.py", "StatefulInterpretationMeta.__init__.<locals>.profiled_dispatch", "COUNTERS['interpretation']", .profiling, ""⟩,
+  ⟨"funsor/interpreter.py", "interpret", "instrument.STACK_SIZE", .profiling, ""⟩,
+  ⟨"funsor/terms.py", "SubstituteInterpretation.interpret", "instrument.COUNTERS['interpretation']", .profiling, ""⟩,
+  ⟨"funsor/terms.py", "reflect", "instrument.COUNTERS['ast_size']", .profiling, ""⟩,
+  ⟨"funsor/terms.py", "reflect", "instrument.COUNTERS['ast_depth']", .profiling, ""⟩,
+  ⟨"funsor/terms.py", "reflect", "instrument.COUNTERS['funsor']", .profiling, ""⟩,
+  ⟨"funsor/terms.py", "reflect", "instrument.COUNTERS[classname]", .profiling, ""⟩,
   -- interpreter state
-  ⟨"funsor/interpreter.py", "push_interpretation", "_STACK", .interpState⟩,
-  ⟨"funsor/interpreter.py", "pop_interpretation", "_STACK", .interpState⟩,
-  ⟨"funsor/interpreter.py", "gensym", "_GENSYM_COUNTER", .interpState⟩,
+  ⟨"funsor/interpreter.py", "push_interpretation", "_STACK", .interpState, ""⟩,
+  ⟨"funsor/interpreter.py", "pop_interpretation", "_STACK", .interpState, ""⟩,
+  ⟨"funsor/interpreter.py", "gensym", "_GENSYM_COUNTER", .interpState, ""⟩,
   -- class-level registries and caches
-  ⟨"funsor/terms.py", "reflect", "cls._cons_cache", .classRegistry⟩,
-  ⟨"funsor/terms.py", "FunsorMeta.__init__", "cls._ast_fields", .classRegistry⟩,
-  ⟨"funsor/terms.py", "FunsorMeta.__init__", "cls._cons_cache", .classRegistry⟩,
-  ⟨"funsor/domains.py", "ArrayType.__getitem__", "ArrayType._type_cache", .classRegistry⟩,
-  ⟨"funsor/domains.py", "ProductDomain.__getitem__", "ProductDomain._type_cache", .classRegistry⟩,
-  ⟨"funsor/typing.py", "register_subclasscheck.<locals>._fn", "_subclasscheck_registry", .classRegistry⟩,
-  ⟨"funsor/typing.py", "GenericTypeMeta.__init__", "cls.__args__", .classRegistry⟩,
-  ⟨"funsor/typing.py", "GenericTypeMeta.__init__", "cls.__origin__", .classRegistry⟩,
-  ⟨"funsor/typing.py", "GenericTypeMeta.__init__", "cls._type_cache", .classRegistry⟩,
-  ⟨"funsor/typing.py", "GenericTypeMeta.__getitem__", "cls._type_cache", .classRegistry⟩,
-  ⟨"funsor/ops/op.py", "OpMeta.__init__", "cls._instance_cache", .classRegistry⟩,
-  ⟨"funsor/ops/op.py", "OpMeta.__init__", "cls._subclass_registry", .classRegistry⟩,
-  ⟨"funsor/ops/op.py", "OpMeta.__init__", "cls.dispatcher", .classRegistry⟩,
-  ⟨"funsor/ops/op.py", "OpMeta.__call__", "cls._instance_cache", .classRegistry⟩,
-  ⟨"funsor/ops/op.py", "Op.subclass_register.<locals>.decorator", "dispatcher", .classRegistry⟩,
-  ⟨"funsor/ops/op.py", "Op.subclass_register.<locals>.decorator", "cls._subclass_registry", .classRegistry⟩,
-  ⟨"funsor/ops/op.py", "Op.make", "op_class.__module__", .classRegistry⟩,
-  ⟨"funsor/ops/op.py", "declare_op_types", "typ.__module__", .classRegistry⟩,
-  ⟨"funsor/ops/op.py", "declare_op_types", "all_", .classRegistry⟩,
-  ⟨"funsor/ops/op.py", "declare_op_types", "locals_", .classRegistry⟩,
-  ⟨"funsor/distribution.py", "CoerceDistributionToFunsor.__call__", "cls._funsor_ast_fields", .classRegistry⟩,
-  ⟨"funsor/distribution.py", "CoerceDistributionToFunsor.__call__", "cls._funsor_cls", .classRegistry⟩,
-  ⟨"funsor/factory.py", "_erase_types", "result.__name__", .classRegistry⟩,
-  ⟨"funsor/factory.py", "_erase_types", "result.__module__", .classRegistry⟩,
-  ⟨"funsor/factory.py", "make_funsor", "ResultMeta.__name__", .classRegistry⟩,
-  ⟨"funsor/factory.py", "make_funsor.<locals>.__init__", "self", .classRegistry⟩,
-  ⟨"funsor/tensor.py", "_nested_function", "fn_i.__name__", .classRegistry⟩,
-  ⟨"funsor/util.py", "methodof.<locals>.decorator", "cls", .classRegistry⟩,
-  ⟨"funsor/util.py", "register_pprint", "pprint.PrettyPrinter._dispatch", .classRegistry⟩,
-  ⟨"funsor/util.py", "pretty", "quote.printoptions", .classRegistry⟩,
-  ⟨"funsor/util.py", "_pprint_funsor", "quote.printoptions", .classRegistry⟩,
-  ⟨"funsor/util.py", "_quote_register_repr", "quote.reprtypes", .classRegistry⟩,
-  ⟨"funsor/gaussian.py", "Gaussian.set_compression_threshold", "cls.compression_threshold", .classRegistry⟩,
+  ⟨"funsor/terms.py", "reflect", "cls._cons_cache", .classRegistry, ""⟩,
+  ⟨"funsor/terms.py", "FunsorMeta.__init__", "cls._ast_fields", .classRegistry, ""⟩,
+  ⟨"funsor/terms.py", "FunsorMeta.__init__", "cls._cons_cache", .classRegistry, ""⟩,
+  ⟨"funsor/domains.py", "ArrayType.__getitem__", "ArrayType._type_cache", .classRegistry, ""⟩,
+  ⟨"funsor/domains.py", "ProductDomain.__getitem__", "ProductDomain._type_cache", .classRegistry, ""⟩,
+  ⟨"funsor/typing.py", "register_subclasscheck.<locals>._fn", "_subclasscheck_registry", .classRegistry, ""⟩,
+  ⟨"funsor/typing.py", "GenericTypeMeta.__init__", "cls.__args__", .classRegistry, ""⟩,
+  ⟨"funsor/typing.py", "GenericTypeMeta.__init__", "cls.__origin__", .classRegistry, ""⟩,
+  ⟨"funsor/typing.py", "GenericTypeMeta.__init__", "cls._type_cache", .classRegistry, ""⟩,
+  ⟨"funsor/typing.py", "GenericTypeMeta.__getitem__", "cls._type_cache", .classRegistry, ""⟩,
+  ⟨"funsor/ops/op.py", "OpMeta.__init__", "cls._instance_cache", .classRegistry, ""⟩,
+  ⟨"funsor/ops/op.py", "OpMeta.__init__", "cls._subclass_registry", .classRegistry, ""⟩,
+  ⟨"funsor/ops/op.py", "OpMeta.__init__", "cls.dispatcher", .classRegistry, ""⟩,
+  ⟨"funsor/ops/op.py", "OpMeta.__call__", "cls._instance_cache", .classRegistry, ""⟩,
+  ⟨"funsor/ops/op.py", "Op.subclass_register.<locals>.decorator", "dispatcher", .classRegistry, ""⟩,
+  ⟨"funsor/ops/op.py", "Op.subclass_register.<locals>.decorator", "cls._subclass_registry", .classRegistry, ""⟩,
+  ⟨"funsor/ops/op.py", "Op.make", "op_class.__module__", .classRegistry, ""⟩,
+  ⟨"funsor/ops/op.py", "declare_op_types", "typ.__module__", .classRegistry, ""⟩,
+  ⟨"funsor/ops/op.py", "declare_op_types", "all_", .classRegistry, ""⟩,
+  ⟨"funsor/ops/op.py", "declare_op_types", "locals_", .classRegistry, ""⟩,
+  ⟨"funsor/distribution.py", "CoerceDistributionToFunsor.__call__", "cls._funsor_ast_fields", .classRegistry, ""⟩,
+  ⟨"funsor/distribution.py", "CoerceDistributionToFunsor.__call__", "cls._funsor_cls", .classRegistry, ""⟩,
+  ⟨"funsor/factory.py", "_erase_types", "result.__name__", .classRegistry, ""⟩,
+  ⟨"funsor/factory.py", "_erase_types", "result.__module__", .classRegistry, ""⟩,
+  ⟨"funsor/factory.py", "make_funsor", "ResultMeta.__name__", .classRegistry, ""⟩,
+  ⟨"funsor/factory.py", "make_funsor.<locals>.__init__", "self", .classRegistry, ""⟩,
+  ⟨"funsor/tensor.py", "_nested_function", "fn_i.__name__", .classRegistry, ""⟩,
+  ⟨"funsor/util.py", "methodof.<locals>.decorator", "cls", .classRegistry, ""⟩,
+  ⟨"funsor/util.py", "register_pprint", "pprint.PrettyPrinter._dispatch", .classRegistry, ""⟩,
+  ⟨"funsor/util.py", "pretty", "quote.printoptions", .classRegistry, ""⟩,
+  ⟨"funsor/util.py", "_pprint_funsor", "quote.printoptions", .classRegistry, ""⟩,
+  ⟨"funsor/util.py", "_quote_register_repr", "quote.reprtypes", .classRegistry, ""⟩,
+  ⟨"funsor/gaussian.py", "Gaussian.set_compression_threshold", "cls.compression_threshold", .classRegistry, ""⟩,
   -- lazily cached attributes on terms
-  ⟨"funsor/terms.py", "reflect", "result._ast_values", .lazyAttr⟩,
-  ⟨"funsor/terms.py", "_", "x._ast_stats", .lazyAttr⟩,
-  ⟨"funsor/affine.py", "affine_inputs", "fn._affine_inputs", .lazyAttr⟩,
-  ⟨"funsor/util.py", "lazy_property.__get__", "obj", .lazyAttr⟩,
-  ⟨"funsor/testing.py", "make_einsum_example", "operand._pyro_dims", .lazyAttr⟩,
+  ⟨"funsor/terms.py", "reflect", "result._ast_values", .lazyAttr, ""⟩,
+  ⟨"funsor/terms.py", "_", "x._ast_stats", .lazyAttr, ""⟩,
+  ⟨"funsor/affine.py", "affine_inputs", "fn._affine_inputs", .lazyAttr, ""⟩,
+  ⟨"funsor/util.py", "lazy_property.__get__", "obj", .lazyAttr, ""⟩,
+  ⟨"funsor/testing.py", "make_einsum_example", "operand._pyro_dims", .lazyAttr, ""⟩,
   -- `x += …` on immutable values (Funsor, frozenset, tuple, int)
-  ⟨"funsor/approximations.py", "argmax_approximate_logaddexp", "result", .rebindImmutable⟩,
-  ⟨"funsor/cnf.py", "eager_contraction_generic_recursive", "reduced_vars", .rebindImmutable⟩,
-  ⟨"funsor/delta.py", "solve_unary", "log_density", .rebindImmutable⟩,
-  ⟨"funsor/delta.py", "Delta.eager_reduce", "scale", .rebindImmutable⟩,
-  ⟨"funsor/distribution.py", "expandeddist_to_funsor", "funsor_base_dist", .rebindImmutable⟩,
-  ⟨"funsor/gaussian.py", "GaussianMeta.__call__", "result", .rebindImmutable⟩,
-  ⟨"funsor/gaussian.py", "Gaussian._eager_subs_affine", "remaining_subs", .rebindImmutable⟩,
-  ⟨"funsor/gaussian.py", "Gaussian._marginalize_after_split", "result", .rebindImmutable⟩,
-  ⟨"funsor/joint.py", "moment_matching_contract_joint", "discrete", .rebindImmutable⟩,
-  ⟨"funsor/joint.py", "moment_matching_contract_joint", "new_discrete", .rebindImmutable⟩,
-  ⟨"funsor/sum_product.py", "_unroll_plate", "sum_vars", .rebindImmutable⟩,
-  ⟨"funsor/sum_product.py", "partial_sum_product", "plates", .rebindImmutable⟩,
-  ⟨"funsor/sum_product.py", "naive_sarkka_bilmes_product", "global_vars", .rebindImmutable⟩,
-  ⟨"funsor/sum_product.py", "sarkka_bilmes_product", "global_vars", .rebindImmutable⟩,
-  ⟨"funsor/terms.py", "Funsor.reduce", "reduced_vars", .rebindImmutable⟩,
-  ⟨"funsor/terms.py", "Funsor.approximate", "approx_vars", .rebindImmutable⟩,
-  ⟨"funsor/terms.py", "Stack.eager_reduce", "reduced_vars", .rebindImmutable⟩,
-  ⟨"funsor/terms.py", "Cat.eager_subs", "n", .rebindImmutable⟩,
+  ⟨"funsor/approximations.py", "argmax_approximate_logaddexp", "result", .rebindImmutable, ""⟩,
+  ⟨"funsor/cnf.py", "eager_contraction_generic_recursive", "reduced_vars", .rebindImmutable, ""⟩,
+  ⟨"funsor/delta.py", "solve_unary", "log_density", .rebindImmutable, ""⟩,
+  ⟨"funsor/delta.py", "Delta.eager_reduce", "scale", .rebindImmutable, ""⟩,
+  ⟨"funsor/distribution.py", "expandeddist_to_funsor", "funsor_base_dist", .rebindImmutable, "T:not isinstance(funsor_base_dist, Distribution)"⟩,
+  ⟨"funsor/gaussian.py", "GaussianMeta.__call__", "result", .rebindImmutable, ""⟩,
+  ⟨"funsor/gaussian.py", "Gaussian._eager_subs_affine", "remaining_subs", .rebindImmutable, "F:isinstance(const, Tensor) and all((isinstance(coeff, Tensor) for coeff, _ in coeffs.values()))"⟩,
+  ⟨"funsor/gaussian.py", "Gaussian._marginalize_after_split", "result", .rebindImmutable, ""⟩,
+  ⟨"funsor/joint.py", "moment_matching_contract_joint", "discrete", .rebindImmutable, ""⟩,
+  ⟨"funsor/joint.py", "moment_matching_contract_joint", "new_discrete", .rebindImmutable, ""⟩,
+  ⟨"funsor/sum_product.py", "_unroll_plate", "sum_vars", .rebindImmutable, ""⟩,
+  ⟨"funsor/sum_product.py", "partial_sum_product", "plates", .rebindImmutable, ""⟩,
+  ⟨"funsor/sum_product.py", "naive_sarkka_bilmes_product", "global_vars", .rebindImmutable, ""⟩,
+  ⟨"funsor/sum_product.py", "sarkka_bilmes_product", "global_vars", .rebindImmutable, ""⟩,
+  ⟨"funsor/terms.py", "Funsor.reduce", "reduced_vars", .rebindImmutable, "T:isinstance(op, ops.ReductionOp) && T:isinstance(op, ops.MeanOp)"⟩,
+  ⟨"funsor/terms.py", "Funsor.approximate", "approx_vars", .rebindImmutable, ""⟩,
+  ⟨"funsor/terms.py", "Stack.eager_reduce", "reduced_vars", .rebindImmutable, ""⟩,
+  ⟨"funsor/terms.py", "Cat.eager_subs", "n", .rebindImmutable, "F:isinstance(value, Variable) && T:isinstance(value, Number)"⟩,
   -- elements of containers built locally / handed down by the single caller
-  ⟨"funsor/distribution.py", "Distribution.eager_log_prob", "dim_to_name", .localBuilder⟩,
-  ⟨"funsor/distribution.py", "Distribution._sample", "dim_to_name", .localBuilder⟩,
-  ⟨"funsor/distribution.py", "Distribution.enumerate_support", "dim_to_name", .localBuilder⟩,
-  ⟨"funsor/gaussian.py", "BlockMatrix.__setitem__", "self.parts[i]", .localBuilder⟩,
-  ⟨"funsor/gaussian.py", "BlockMatrix.as_tensor", "self.parts[i]", .localBuilder⟩,
-  ⟨"funsor/gaussian.py", "Gaussian._eager_subs_affine", "coeffs", .localBuilder⟩,
-  ⟨"funsor/ops/op.py", "Op.__call__", "bound.arguments", .localBuilder⟩,
-  ⟨"funsor/ops/op.py", "Op.__call__", "trace", .localBuilder⟩,
-  ⟨"funsor/sum_product.py", "_partition", "neighbors[term]", .localBuilder⟩,
-  ⟨"funsor/sum_product.py", "_partition", "neighbors.setdefault(dim, [])", .localBuilder⟩,
-  ⟨"funsor/sum_product.py", "_partition", "pending", .localBuilder⟩,
-  ⟨"funsor/sum_product.py", "_unroll_plate", "var_to_ordinal", .localBuilder⟩,
+  ⟨"funsor/distribution.py", "Distribution.eager_log_prob", "dim_to_name", .localBuilder, ""⟩,
+  ⟨"funsor/distribution.py", "Distribution._sample", "dim_to_name", .localBuilder, ""⟩,
+  ⟨"funsor/distribution.py", "Distribution.enumerate_support", "dim_to_name", .localBuilder, ""⟩,
+  ⟨"funsor/gaussian.py", "BlockMatrix.__setitem__", "self.parts[i]", .localBuilder, ""⟩,
+  ⟨"funsor/gaussian.py", "BlockMatrix.as_tensor", "self.parts[i]", .localBuilder, ""⟩,
+  ⟨"funsor/gaussian.py", "Gaussian._eager_subs_affine", "coeffs", .localBuilder, ""⟩,
+  ⟨"funsor/ops/op.py", "Op.__call__", "bound.arguments", .localBuilder, ""⟩,
+  ⟨"funsor/ops/op.py", "Op.__call__", "trace", .localBuilder, ""⟩,
+  ⟨"funsor/sum_product.py", "_partition", "neighbors[term]", .localBuilder, ""⟩,
+  ⟨"funsor/sum_product.py", "_partition", "neighbors.setdefault(dim, [])", .localBuilder, ""⟩,
+  ⟨"funsor/sum_product.py", "_partition", "pending", .localBuilder, ""⟩,
+  ⟨"funsor/sum_product.py", "_unroll_plate", "var_to_ordinal", .localBuilder, ""⟩,
   -- interpretation state objects
-  ⟨"funsor/montecarlo.py", "monte_carlo_integrate", "state.rng_key", .engineState⟩,
-  ⟨"funsor/montecarlo.py", "monte_carlo_approximate", "state.rng_key", .engineState⟩,
-  ⟨"funsor/precondition.py", "precondition_approximate_gaussian", "state.sample_inputs", .engineState⟩,
-  ⟨"funsor/precondition.py", "precondition_approximate_gaussian", "state.sample_vars", .engineState⟩
+  ⟨"funsor/montecarlo.py", "monte_carlo_integrate", "state.rng_key", .engineState, ""⟩,
+  ⟨"funsor/montecarlo.py", "monte_carlo_approximate", "state.rng_key", .engineState, ""⟩,
+  ⟨"funsor/precondition.py", "precondition_approximate_gaussian", "state.sample_inputs", .engineState, ""⟩,
+  ⟨"funsor/precondition.py", "precondition_approximate_gaussian", "state.sample_vars", .engineState, ""⟩
 ]
 
 /-- Classes whose instances are engine state / builders, not terms: a depth-1 store into
@@ -183,7 +187,8 @@ def siteOk (w : WriteSite) : Bool :=
   | .freshLocal | .immutable | .initSelf | .importTime => true
   | .ownState => stateClasses.any (fun c => c.1 == w.file && c.2 == w.cls)
   | .notFresh => reviewedSites.any (fun r =>
-      r.file == w.file && r.func == w.func && r.target == w.target && r.why.allows w.kind)
+      r.file == w.file && r.func == w.func && r.target == w.target && r.why.allows w.kind
+      && (r.why != .rebindImmutable || r.guard == w.guard))
 
 /-- Sites of the generated table not covered by any justification (empty on a conforming tree). -/
 def offending : List WriteSite := writeSites.filter (fun w => !siteOk w)
